@@ -1,20 +1,6 @@
-mod alloc;
-mod engine;
-mod frames;
-mod stream;
-mod histprop;
-mod l1;
-mod l2;
-mod l3;
-mod netpipe;
-mod panics;
-mod props;
-mod respcheck;
-mod spec;
-mod sym;
-mod wire;
 
-use engine::*;
+use vcheck::engine::*;
+use vcheck::{alloc, histprop, panics, props};
 
 #[global_allocator]
 static GLOBAL: alloc::Counting = alloc::Counting;
@@ -155,6 +141,10 @@ fn replay_kind(path: &str) -> String {
 }
 
 fn replay(id: &'static str, path: &str) -> i32 {
+    let is_json = std::fs::read(path).ok().map_or(false, |d| serde_json::from_slice::<serde_json::Value>(&d).is_ok());
+    if !is_json && (id == "C09" || id == "C10") {
+        return props::fuzzrun::replay_raw(id, path);
+    }
     match replay_kind(path).as_str() {
         "pipe" => return props::c12::replay(id, path),
         "stream_socket" => {
